@@ -26,7 +26,7 @@ def main(tier):
         for m, kern in (("add", "add_time_duration"), ("subtract", "subtract_time_duration")):
             check_guarded_call(run, fx, rs.fn(wiring.CORE + T + "::" + m), "is_time_duration", "::" + kern,
                                "R11.time-duration-guard", "%s::%s" % (T.rsplit("::", 1)[-1], m), kind="Range",
-                               guard_pass=False)
+                               guard_pass=True)       # the positive atom (negations are normalised by the path extractor)
     run.rule("R11.time-duration-guard", "Instant/PlainTime add and subtract reach the arithmetic only when "
                                         "`!duration.is_time_duration()` was decided false; otherwise a RangeError")
     # direction of the instant difference
